@@ -74,8 +74,8 @@ def contraction_slack(rec, exp_rho, dims, names):
     deficit lies in (1e-9, 1e-5) and that the library now stores as a vector may differ from the exact state by up
     to ~1e-6.  Generators avoid that zone for the states they build, but a non-unitary operator, a channel or a
     measurement can move a state into it."""
-    if not (rec.contraction or rec.step["k"] == "contract"):
-        return 0.0
+    # (not gated on the Config flag: Envelope.apply_kraus contracts its result whatever the flag says, and no
+    # property forbids reporting a state that is pure within the documented tolerance as a vector)
     try:
         for b in blocks(rec.post):
             if b["level"] == "M" or not all(m in names for m in b["members"]):
@@ -464,6 +464,8 @@ def judge_measure(rec, prop):
         keys = [d.get("key") for d in rec.draws if d.get("key") is not None]
         if len(set(keys)) != len(keys):
             problems = list(problems) + [("key-reused-within-call", f"{len(keys)} draws of one measure call used {len(set(keys))} distinct keys: the outcomes are not independent samples")]
+        if getattr(rec, "key_reused", None):
+            problems = list(problems) + [("key-reused-across-calls", f"{len(rec.key_reused)} draw(s) at {rec.key_reused[0]['caller']} used a key that an earlier call of this program had already used: not an independent sample")]
         for mode, det in problems:
             out.append(V(prop, "violated", mode, det, cell=cell, ndraws=len(rec.draws), **sig))
         if not problems:
@@ -592,6 +594,8 @@ def judge_c09(rec):
     nops = len(st["ops"])
     # the POVM draw: the draw over nops outcomes
     pd = [d for d in rec.draws if d["p"] is not None and len(d["p"]) == nops]
+    if getattr(rec, "key_reused", None):
+        out.append(V("C09", "violated", "key-reused-across-calls", f"draw at {rec.key_reused[0]['caller']} used a key that an earlier call of this program had already used: the outcome is not an independent sample of p", cell=cell, **sig))
     if not pd:
         out.append(V("C09", "violated", "missing-draw", "no random draw over the operator set", cell=cell, **sig))
     else:
